@@ -46,5 +46,37 @@ def expectedHeaderFields : List String :=
 theorem gen_sync_steps_eq : Gen.SyncSteps.steps = expectedSyncSteps := by decide
 theorem gen_sync_header_eq : Gen.SyncSteps.headerFields = expectedHeaderFields := by decide
 
+/-! ### The byte budget (`MaxSyncWALBytes`) reaches `DB.sync` only through `DB.Sync`'s loop
+
+A budgeted sync copies a prefix of the WAL and reports `limited`; only `DB.Sync`
+loops until the end of the WAL is reached (`C13.gen_syncLoopExit_eq`).  Every
+other caller — `Close`'s final sync, the syncs inside a checkpoint — must pass
+budget 0, for which `pageMap` reads to the last commit
+(`C09.pageMap_eq_recover`: `limited = false`). -/
+
+def expectedBudgetFlow : List (String × String × String) := [
+  ("Close", "syncLocked", "0"),
+  ("Sync", "syncOnce", "db.MaxSyncWALBytes"),
+  ("syncOnce", "syncLocked", "maxSyncWALBytes"),
+  ("syncLocked", "verifyAndSyncWithExecutor", "maxSyncWALBytes"),
+  ("verifyAndSync", "verifyAndSyncWithExecutor", "0"),
+  ("verifyAndSyncWithExecutor", "sync", "maxSyncWALBytes"),
+  ("checkpointWithExecutor", "verifyAndSyncWithExecutor", "0"),
+  ("checkpointWithExecutor", "verifyAndSyncWithExecutor", "0"),
+  ("checkpointWithExecutor", "verifyAndSyncWithExecutor", "0"),
+  ("checkpointWithExecutor", "verifyAndSyncWithExecutor", "0"),
+  ("checkpointWithExecutor", "verifyAndSyncWithExecutor", "0"),
+  ("checkpointWithExecutor", "sync", "0")]
+
+theorem gen_budget_flow_eq : Gen.SyncSteps.budgetFlow = expectedBudgetFlow := by decide
+
+/-- A budget that is neither the literal 0 nor the pass-through parameter is introduced only by `DB.Sync`. -/
+theorem gen_budget_introduced_only_by_Sync :
+    ∀ e ∈ Gen.SyncSteps.budgetFlow, e.2.2 ≠ "0" → e.2.2 ≠ "maxSyncWALBytes" → e.1 = "Sync" := by decide
+
+/-- `Close`'s final sync and every sync inside a checkpoint are unbudgeted. -/
+theorem gen_close_and_checkpoint_unbudgeted :
+    ∀ e ∈ Gen.SyncSteps.budgetFlow, e.1 = "Close" ∨ e.1 = "checkpointWithExecutor" ∨ e.1 = "verifyAndSync" → e.2.2 = "0" := by decide
+
 end C01
 end Litestream
